@@ -3,6 +3,7 @@ import CM.Model.Exit
 import CM.Driver.OpsRS
 import CM.Driver.OpsReg
 import CM.Driver.OpsSel
+import CM.Driver.OpsRun
 open Lean
 namespace CM.Driver
 
@@ -55,6 +56,7 @@ def dispatch (j : Json) : Except String Json := do
   | "line_filter" => opLineFilter j
   | "selected" => opSelected j
   | "findings_for_line" => opFindingsForLine j
+  | "run" => opRun j
   | _ => .error s!"bad-op: unknown op {op}"
 
 end CM.Driver
